@@ -785,3 +785,30 @@ def o_rearm_order(case, obs):
         if 0 in inputs and 1 in inputs and inputs.index(0) < inputs.index(1):
             return "at time %d the one-shot scheduled by the previous occurrence ran before the periodic occurrence due at the same time (inputs in order: %s)" % (t, inputs)
     return None
+
+
+def o_timeout(c, obs):
+    """C11: the call that runs the overrunning handler returns Timeout; afterwards every attempt to run the simulation
+    returns Terminated, runs no model code and leaves the time where it was."""
+    if "timeout" not in c.get("tags", ()):
+        return None
+    fired, tfail = None, None
+    for j, cm in enumerate(c["cmds"]):
+        if j + 1 >= len(obs):
+            return "no observation for command %d (%s)" % (j, cm[0])
+        res, t, ents = obs[j + 1]
+        kind = res.split(":")[0]
+        if fired is not None:
+            if cm[0] in ("st", "su", "pe", "pq", "ps"):
+                if kind != "term":
+                    return "command %d (%s) after the Timeout of command %d returned %s, not Terminated" % (j, cm[0], fired, res)
+                if any(e.split(":")[0] in ("H", "P", "I") for e in ents):
+                    return "model code ran in command %d, after the Timeout of command %d: %s" % (j, fired, " ".join(ents))
+                if t != tfail:
+                    return "the time moved from %s to %s in command %d, after the Timeout of command %d" % (tfail, t, j, fired)
+            continue
+        if kind == "timeout":
+            fired, tfail = j, t
+        elif j == c["slow_cmd"]:
+            return "the call running a handler that overruns the 1 s timeout by 4 s returned %s, not Timeout" % res
+    return None
